@@ -178,7 +178,8 @@ func init() {
 	soupVocabulary = append(soupVocabulary,
 		"(", ")", "{", "}", ",", "=", "==", "!=", "<", ">", "<=", ">=", "+", "-", "*", "/", "%", ":=", "!", ":",
 		"'a'", "\"b\"", "'\\n'", "'\\x41'", "'\\x4'", "''", "'it\\'s'", "0", "1", "2", "10", "x", "y1", "myVar",
-		"@/a+/", "@/(a|b)*c/", "@/[a-c]{2,3}/", "@/\\d\\1/", "-- c\n", "--( c )--", "--", "'unterminated", "@/unterminated", "\\")
+		"@/a+/", "@/(a|b)*c/", "@/[a-c]{2,3}/", "@/\\d\\1/", "-- c\n", "--( c )--", "--", "'unterminated", "@/unterminated", "\\",
+		"'\\x\u0663\u0664'", "\"\\x4\u096a\"", "\u0663", "x\u0663", "'\u00e9'", "@/\u00e9+/")
 }
 
 func sortStrings(s []string) {
